@@ -842,14 +842,17 @@ loop:
 // alternate datastores are closed since they are owned by the keystore.
 // The metaDs is not closed because it is owned by the caller.
 func (s *ResettableKeystore) Close() (err error) {
-	select {
-	case <-s.close:
-		// A Close call is under way or over: like it, return only once the
-		// worker has exited.
-		<-s.done
-	default:
+	first := false
+	s.closeOnce.Do(func() {
+		first = true
 		close(s.close)
-		<-s.done // Wait for worker to exit (no new buffer appends after this).
+	})
+	<-s.done // Wait for worker to exit (no new buffer appends after this).
+	if !first {
+		// Another Close call is under way or over.
+		return nil
+	}
+	{
 		// Wait for any in-flight altDs write from ResetCids to finish.
 		// We never release the token, so subsequent ResetCids callers fall
 		// through on <-s.done.
